@@ -179,12 +179,12 @@ def run_status_inputs(dir_exists: bool, n_sarif: int, t0: int, t1: int, e0: bool
     pre: 0 <= n_sarif <= 2
     post: _
     """
-    return run_status(dir_exists, n_sarif, t0, t1, e0, e1, has_sonar, sonar_exists, has_dd, dd_exists, False, False, False, False, True, True, False, empty_name)
+    return run_status(dir_exists, n_sarif, t0, t1, e0, e1, has_sonar, sonar_exists, has_dd, dd_exists, 0, 0, 0, 0, True, True, False, empty_name)
 
 
-def run_status_ai_report(sonar_missing: bool, az_key: bool, az_ep: bool, ll_key: bool, ll_ep: bool, has_output: bool, report_writable: bool, dry_run: bool) -> bool:
+def run_status_ai_report(sonar_missing: bool, az_key: int, az_ep: int, ll_key: int, ll_ep: int, has_output: bool, report_writable: bool, dry_run: bool) -> bool:
     """run(): status for every combination of AI-client environment settings, --output given / writable and
-    --dry-run (plus one missing result file): 3 for an inconsistent AI configuration, 2 when the report cannot
+    --dry-run (plus one missing result file; each variable absent / exported-but-empty / set): 3 for an inconsistent AI configuration, 2 when the report cannot
     be written, 0 otherwise; non-zero never with a written report.
     post: _
     """
@@ -192,7 +192,7 @@ def run_status_ai_report(sonar_missing: bool, az_key: bool, az_ep: bool, ll_key:
 
 
 def run_status(dir_exists: bool, n_sarif: int, t0: int, t1: int, e0: bool, e1: bool, has_sonar: bool, sonar_exists: bool,
-               has_dd: bool, dd_exists: bool, az_key: bool, az_ep: bool, ll_key: bool, ll_ep: bool,
+               has_dd: bool, dd_exists: bool, az_key: int, az_ep: int, ll_key: int, ll_ep: int,
                has_output: bool, report_writable: bool, dry_run: bool, empty_name: bool = False) -> bool:
     """codemodder.run(): the returned status is the documented one for the condition that applies (1: missing
     directory / missing result file / two SARIF inputs of the same tool; 3: inconsistent AI-client settings; 2:
@@ -203,14 +203,13 @@ def run_status(dir_exists: bool, n_sarif: int, t0: int, t1: int, e0: bool, e1: b
     ENV.exists = {"D": dir_exists, "S0": e0, "S1": e1, "J1": sonar_exists, "J2": dd_exists}
     ENV.sarif_tool = {"S0": _tool(t0), "S1": _tool(t1)}
     ENV.env = {}
-    if az_key:
-        ENV.env["CODEMODDER_AZURE_OPENAI_API_KEY"] = "k"
-    if az_ep:
-        ENV.env["CODEMODDER_AZURE_OPENAI_ENDPOINT"] = "https://e"
-    if ll_key:
-        ENV.env["CODEMODDER_AZURE_LLAMA_API_KEY"] = "k"
-    if ll_ep:
-        ENV.env["CODEMODDER_AZURE_LLAMA_ENDPOINT"] = "https://e"
+    # each variable: 0 absent, 1 exported but empty (counts as not configured), 2 set
+    for name, v, val in (("CODEMODDER_AZURE_OPENAI_API_KEY", az_key, "k"), ("CODEMODDER_AZURE_OPENAI_ENDPOINT", az_ep, "https://e"),
+                         ("CODEMODDER_AZURE_LLAMA_API_KEY", ll_key, "k"), ("CODEMODDER_AZURE_LLAMA_ENDPOINT", ll_ep, "https://e")):
+        if v % 3 == 1:
+            ENV.env[name] = ""
+        elif v % 3 == 2:
+            ENV.env[name] = val
     ENV.report_writable = report_writable
     WRITTEN.clear()
     captured = []
@@ -236,7 +235,7 @@ def run_status(dir_exists: bool, n_sarif: int, t0: int, t1: int, e0: bool, e1: b
         dup = n_sarif == 2 and e0 and e1 and ENV.sarif_tool["S0"] == ENV.sarif_tool["S1"] and ENV.sarif_tool["S0"] != 2
         if sarif_missing or dup or (has_sonar and (not sonar_exists or empty_name)) or (has_dd and not dd_exists):
             applicable.add(1)
-        if az_key != az_ep or ll_key != ll_ep:
+        if (az_key % 3 == 2) != (az_ep % 3 == 2) or (ll_key % 3 == 2) != (ll_ep % 3 == 2):
             applicable.add(3)
         if not applicable and has_output and not report_writable:
             applicable.add(2)
@@ -320,9 +319,9 @@ def planted_status_dropped(report_writable: bool) -> bool:
 def warmup():
     run_status_inputs(True, 2, 0, 1, True, True, True, True, True, True, False)
     run_status_inputs(True, 0, 0, 1, True, True, True, True, False, True, True)
-    run_status_ai_report(False, True, True, False, False, True, True, True)
-    run_status(True, 2, 0, 1, True, True, True, True, True, True, True, True, False, False, True, True, True)
-    run_status(True, 1, 0, 1, True, True, False, True, False, True, True, False, False, False, True, False, False)
+    run_status_ai_report(False, 2, 2, 0, 1, True, True, True)
+    run_status(True, 2, 0, 1, True, True, True, True, True, True, 2, 2, 0, 0, True, True, True)
+    run_status(True, 1, 0, 1, True, True, False, True, False, True, 2, 1, 0, 0, True, False, False)
     for i in range(len(VECTORS)):
         cli_status(i)
 
@@ -340,7 +339,7 @@ SPEC = {
         "codemodder.cli.parse_args / ArgumentParser.error / CsvListAction / ListAction / DescribeAction",
     ],
     "bounds": {
-        "quick": "symbolic environment flags of run(), explored in two groups (input conditions: 10 flags; AI settings / report / dry-run: 8 flags): directory exists; 0-2 SARIF files x tool in {semgrep, codeql, other} x exists; Sonar / DefectDojo file given x exists; 4 AI-client environment variables; --output given x writable; --dry-run.  CLI: a vocabulary of 17 argument vectors selected by a symbolic index",
+        "quick": "symbolic environment flags of run(), explored in two groups (input conditions: 10 flags; AI settings / report / dry-run: 8 flags): directory exists; 0-2 SARIF files x tool in {semgrep, codeql, other} x exists; Sonar / DefectDojo file given x exists; 4 AI-client environment variables (absent / exported but empty / set); --output given x writable; --dry-run.  CLI: a vocabulary of 17 argument vectors selected by a symbolic index",
         "thorough": "same space",
     },
     "assumptions": [
